@@ -348,7 +348,7 @@ fn run_c05(ctx: &mut Ctx) {
         }
     }
     // W3: random
-    let per = tier.pick(200, 60_000, 2_000_000) / ctx.nworkers + 1;
+    let per = tier.pick(200, 600_000, 6_000_000) / ctx.nworkers + 1;
     let mut rng = Rng::derive(ctx.seed, 0x0506, ctx.worker as u64);
     for _ in 0..per {
         let ta = rng.below(NTYPES);
@@ -414,7 +414,7 @@ fn run_c06(ctx: &mut Ctx) {
         }
     }
     // random
-    let per = tier.pick(200, 40_000, 1_500_000) / ctx.nworkers + 1;
+    let per = tier.pick(200, 300_000, 4_000_000) / ctx.nworkers + 1;
     let mut rng = Rng::derive(ctx.seed, 0x0607, ctx.worker as u64);
     for _ in 0..per {
         let ta = rng.below(NTYPES);
